@@ -19,7 +19,7 @@ vars == <<kind, st, hist>>
 
 BaseDepth(k) == CASE k = "oneshot" -> 5 [] k = "lazy" -> 4 [] k = "obslist" -> 4 [] k = "stream" -> 4 [] k = "poll" -> 3
                   [] k \in {"gather", "dlss"} -> 5 [] k = "race" -> 4 [] k = "timeout" -> 6 [] k = "hook" -> 3
-                  [] k = "until" -> 5 [] k = "evchain" -> 5 [] k = "consumer" -> 1 [] k = "dictofsets" -> 3
+                  [] k = "until" -> 5 [] k = "evchain" -> 5 [] k = "a2d" -> 3 [] k = "waitdc" -> 4 [] k = "consumer" -> 1 [] k = "dictofsets" -> 3
                   [] k = "auxdict" -> 3 [] k = "typedkeys" -> 3 [] OTHER -> 3
 DepthOf(k) == IF k = "consumer" THEN 1 ELSE IF Wide THEN SimDepth ELSE BaseDepth(k) + Scale
 
@@ -90,6 +90,11 @@ EC_Eventual == Is({"evchain"}) => P_EC_Eventual(hist)
 EC_SameResult == Is({"evchain"}) => P_EC_SameResult(hist)
 EC_AfterTurn == Is({"evchain"}) => P_EC_AfterTurn(hist)
 EC_PassThrough == Is({"evchain"}) => P_EC_PassThrough(hist)
+A2_ReturnsDeferred == Is({"a2d"}) => P_A2_ReturnsDeferred(hist)
+A2_Result == Is({"a2d"}) => P_A2_Result(hist)
+WD_PassThrough == Is({"waitdc"}) => P_WD_PassThrough(hist)
+WD_NotEarly == Is({"waitdc"}) => P_WD_NotEarly(hist)
+WD_NotLate == Is({"waitdc"}) => P_WD_NotLate(hist)
 CN_Data == Is({"consumer"}) => P_CN_Data(hist)
 CN_Resumes == Is({"consumer"}) => P_CN_Resumes(hist)
 DS_NoEmptySets == Is({"dictofsets"}) => P_DS_NoEmptySets(hist)
